@@ -153,6 +153,10 @@ impl Comp {
     pub fn to_jbk(&self) -> Compression {
         match self {
             Comp::None => Compression::None,
+            // the default levels go through the library's own constructors
+            Comp::Lz4(3) => Compression::lz4(),
+            Comp::Lzma(9) => Compression::lzma(),
+            Comp::Zstd(5) => Compression::zstd(),
             Comp::Lz4(l) => Compression::Lz4(deranged::RangedU32::new(*l).expect("lz4 level")),
             Comp::Lzma(l) => Compression::Lzma(deranged::RangedU32::new(*l).expect("lzma level")),
             Comp::Zstd(l) => Compression::Zstd(deranged::RangedI32::new(*l).expect("zstd level")),
